@@ -98,6 +98,8 @@ def _from_decision_proto(it, args, kw):
     t = proto.pack()
     n = proto.get('suggestions').n
     sugg = SymList(n, sugg_of(t), 'pyobj')
+    if it.run.bounded:
+        it.concretize_len(sugg)
     md = M.OpaqueObj(decision_md(t))
     it.run.S = sugg
     return Obj('opaque:SuggestDecision', {'suggestions': sugg, 'metadata': md})
@@ -107,6 +109,8 @@ def _from_decision_proto(it, args, kw):
 def _make_kv(it, args, kw):
     o = args[0]
     n = md_study_n(o.term)
+    if it.run.bounded:
+        n = z3.IntVal(0)      # bounded model query: the algorithm sends no metadata
     it.run.assume(n >= 0)
     return SymList(n, md_study_of(o.term), KV())
 
@@ -115,6 +119,8 @@ def _make_kv(it, args, kw):
 def _make_umu(it, args, kw):
     o = args[0]
     n = md_trials_n(o.term)
+    if it.run.bounded:
+        n = z3.IntVal(0)
     it.run.assume(n >= 0)
     return SymList(n, md_trials_of(o.term), UMU())
 
@@ -122,9 +128,14 @@ def _make_umu(it, args, kw):
 @model(CONV + ':TrialConverter.to_protos')
 def _to_protos(it, args, kw):
     xs = args[-1]
+    run = it.run
+    if run.bounded:
+        items = M.iterate(it, xs)
+        out = [Msg.from_term(T(), to_trial_proto(E.to_z3(x))) for x in items]
+        run.NT_list = [m.pack() for m in out]
+        return out
     if not isinstance(xs, SymList):
         raise Unsupported('TrialConverter.to_protos of a non-symbolic list')
-    run = it.run
     arr = run.fresh('new_trials', z3.ArraySort(z3.IntSort(), pm.msg_sort(T())))
     j = z3.Int('j!tp')
     run.axiom(z3.ForAll([j], z3.Implies(z3.And(j >= 0, j < xs.n), arr[j] == to_trial_proto(xs.arr[j]))))
@@ -155,6 +166,25 @@ def request_terms(fr_or_req):
 
 
 # ------------------------------------------------------------------------------------------ loop contracts
+def _static_facts(run, sk):
+    """Loop-independent facts about the lists built before the pool loop (proved at loop entry from the list and
+    comprehension axioms, then available at every loop head): shortcuts for the quantifier instantiation."""
+    A, P, Dp = run.sg['A'], run.sg['P'], run.sg['Dpool0']
+    t = T()
+    j, j2 = z3.Int('j!sf'), z3.Int('j2!sf')
+    Dt0 = Dp['D.trial']
+    return [
+        ('pool_entries', z3.ForAll([j], z3.Implies(z3.And(j >= 0, j < P.n), z3.And(
+            Dt0[tkey(P.arr[j])] == some(t, P.arr[j]), acc(t, 'state')(P.arr[j]) == REQUESTED,
+            Name.is_trial(tkey(P.arr[j])), S.study_of_trial(tkey(P.arr[j])) == sk,
+            S.inv_trial_at(Dp, tkey(P.arr[j])))))),
+        ('pool_keys_distinct', z3.ForAll([j, j2], z3.Implies(z3.And(j >= 0, j < j2, j2 < P.n), tkey(P.arr[j]) != tkey(P.arr[j2])))),
+        ('own_entries', z3.ForAll([j], z3.Implies(z3.And(j >= 0, j < A.n), z3.And(
+            Dt0[tkey(A.arr[j])] == some(t, A.arr[j]), acc(t, 'state')(A.arr[j]) == ACTIVE,
+            Name.is_trial(tkey(A.arr[j])), S.study_of_trial(tkey(A.arr[j])) == sk)))),
+    ]
+
+
 def _inv_pool(it, fr, ctx):
     """while requested_trials and request.suggestion_count > len(output_trials)   (Appendix C, pool loop)"""
     run = it.run
@@ -169,7 +199,7 @@ def _inv_pool(it, fr, ctx):
     j = z3.Int('j!ip')
     k = z3.Const('k!ip', Name)
     Dt = run.ghost['D.trial']
-    inv = []
+    inv = list(_static_facts(run, sk))
     inv.append(('sizes', z3.And(reqs.n >= 0, reqs.n <= P.n, out.n == A.n + (P.n - reqs.n), out.n <= count, A.n < count)))
     inv.append(('pool_array_unchanged', reqs.arr == P.arr))
     inv.append(('output_prefix_own', z3.ForAll([j], z3.Implies(z3.And(j >= 0, j < A.n), out.arr[j] == A.arr[j]))))
@@ -187,8 +217,21 @@ def _inv_pool(it, fr, ctx):
 E.LOOPS[(SVC, 'VizierServicer.SuggestTrials', 1)] = E.LoopSpec(_inv_pool, ghost=('D.trial',))
 
 
+def _created(run, client, sk, jj):
+    NT, m0, start = run.sg['NT'], run.sg['m0'], run.sg['start']
+    nk = Name.trial(Name.o1(sk), Name.s1(sk), m0 + (NT.n - jj))
+    return nk, with_fields(T(), NT.arr[jj], {
+        'id': M.int2str(m0 + (NT.n - jj)), 'name': mkname(nk), 'state': z3.IntVal(ACTIVE),
+        'start_time': start, 'has__start_time': z3.BoolVal(True), 'client_id': client})
+
+
+def _name_facts(nk):
+    """what the resource-name algebra gives for a freshly built trial name"""
+    return z3.And(parse(mkname(nk)) == nk, M.str2int(M.int2str(Name.t2(nk))) == Name.t2(nk))
+
+
 def _inv_create(it, fr, ctx):
-    """while request.suggestion_count > len(output_trials): pop a new trial, give it id max+1, create it."""
+    """while new_trials and request.suggestion_count > len(output_trials): pop a new trial, give it id max+1, create it."""
     run = it.run
     req = fr.env['request']
     client, count, sk = request_terms(req)
@@ -197,31 +240,38 @@ def _inv_create(it, fr, ctx):
         run.sg.update({'NT': ctx.entry_vals['new_trials'], 'out2': ctx.entry_vals['output_trials'], 'Dcreate0': dict(run.ghost)})
         run.sg['m0'] = S.max_id_of(it, sk)
     NT, out2, Dc = run.sg['NT'], run.sg['out2'], run.sg['Dcreate0']
-    start = run.sg['start']
     m0 = run.sg['m0']
     j = z3.Int('j!ic')
     k = z3.Const('k!ic', Name)
     Dt = run.ghost['D.trial']
     c2 = NT.n - new.n
-    nk = lambda jj: Name.trial(Name.o1(sk), Name.s1(sk), m0 + (NT.n - jj))
-    created = lambda jj: with_fields(T(), NT.arr[jj], {
-        'id': M.int2str(m0 + (NT.n - jj)), 'name': mkname(nk(jj)), 'state': z3.IntVal(ACTIVE),
-        'start_time': start, 'has__start_time': z3.BoolVal(True), 'client_id': client})
     inv = []
     inv.append(('sizes', z3.And(new.n >= 0, new.n <= NT.n, out.n == out2.n + c2, out.n <= count)))
     inv.append(('new_array_unchanged', new.arr == NT.arr))
     inv.append(('output_prefix', z3.ForAll([j], z3.Implies(z3.And(j >= 0, j < out2.n), out.arr[j] == out2.arr[j]))))
     inv.append(('output_created', z3.ForAll([j], z3.Implies(z3.And(j >= out2.n, j < out.n),
-                                                             out.arr[j] == created(NT.n - 1 - (j - out2.n))))))
-    inv.append(('stored_created', z3.ForAll([j], z3.Implies(z3.And(j >= new.n, j < NT.n), Dt[nk(j)] == some(T(), created(j))))))
+                                                             out.arr[j] == _created(run, client, sk, NT.n - 1 - (j - out2.n))[1]))))
+    inv.append(('stored_created', z3.ForAll([j], z3.Implies(z3.And(j >= new.n, j < NT.n), z3.And(
+        Dt[_created(run, client, sk, j)[0]] == some(T(), _created(run, client, sk, j)[1]), _name_facts(_created(run, client, sk, j)[0]))))))
     inv.append(('others_untouched', z3.ForAll([k], z3.Implies(
         z3.Not(z3.And(Name.is_trial(k), S.study_of_trial(k) == sk, Name.t2(k) > m0, Name.t2(k) <= m0 + c2)), Dt[k] == Dc['D.trial'][k]))))
     inv.append(('other_maps', z3.And(run.ghost['D.study'] == Dc['D.study'], run.ghost['D.sop'] == Dc['D.sop'],
                                      run.ghost['D.eop'] == Dc['D.eop'])))
+    inv.append(('max_bound', z3.ForAll([k], z3.Implies(z3.And(Name.is_trial(k), S.study_of_trial(k) == sk, is_some(T(), Dt[k])),
+                                                       Name.t2(k) <= m0 + c2))))
+    inv.append(('max_witness', z3.Or(m0 + c2 == 0, is_some(T(), Dt[Name.trial(Name.o1(sk), Name.s1(sk), m0 + c2)]))))
+    inv.append(('study_exists', z3.And(Name.is_study(sk), S.wf(sk), is_some(ST(), run.ghost['D.study'][sk]))))
     return inv
 
 
 E.LOOPS[(SVC, 'VizierServicer.SuggestTrials', 2)] = E.LoopSpec(_inv_create, ghost=('D.trial', 'D.seq', 'D.next'))
+
+
+def _queued(run, sk, new, jj):
+    NT, m0 = run.sg['NT'], run.sg['m0']
+    c2 = NT.n - new.n
+    nk = Name.trial(Name.o1(sk), Name.s1(sk), m0 + c2 + 1 + jj)
+    return nk, with_fields(T(), new.arr[jj], {'id': M.int2str(m0 + c2 + 1 + jj), 'name': mkname(nk), 'state': z3.IntVal(REQUESTED)})
 
 
 def _inv_surplus(it, fr, ctx):
@@ -233,22 +283,23 @@ def _inv_surplus(it, fr, ctx):
     if ctx.phase == 'init':
         run.sg.update({'Dsur0': dict(run.ghost), 'R': M.snapshot(new)})
     Ds = run.sg['Dsur0']
-    NT = run.sg['NT']
-    m0 = run.sg['m0']
+    NT, m0 = run.sg['NT'], run.sg['m0']
     c2 = NT.n - new.n          # trials created for the caller
     i = ctx.i
     j = z3.Int('j!is')
     k = z3.Const('k!is', Name)
     Dt = run.ghost['D.trial']
-    nk = lambda jj: Name.trial(Name.o1(sk), Name.s1(sk), m0 + c2 + 1 + jj)
-    queued = lambda jj: with_fields(T(), new.arr[jj], {
-        'id': M.int2str(m0 + c2 + 1 + jj), 'name': mkname(nk(jj)), 'state': z3.IntVal(REQUESTED)})
     inv = []
-    inv.append(('stored_queued', z3.ForAll([j], z3.Implies(z3.And(j >= 0, j < i), Dt[nk(j)] == some(T(), queued(j))))))
+    inv.append(('stored_queued', z3.ForAll([j], z3.Implies(z3.And(j >= 0, j < i), z3.And(
+        Dt[_queued(run, sk, new, j)[0]] == some(T(), _queued(run, sk, new, j)[1]), _name_facts(_queued(run, sk, new, j)[0]))))))
     inv.append(('others_untouched', z3.ForAll([k], z3.Implies(
         z3.Not(z3.And(Name.is_trial(k), S.study_of_trial(k) == sk, Name.t2(k) > m0 + c2, Name.t2(k) <= m0 + c2 + i)), Dt[k] == Ds['D.trial'][k]))))
     inv.append(('other_maps', z3.And(run.ghost['D.study'] == Ds['D.study'], run.ghost['D.sop'] == Ds['D.sop'],
                                      run.ghost['D.eop'] == Ds['D.eop'])))
+    inv.append(('max_bound', z3.ForAll([k], z3.Implies(z3.And(Name.is_trial(k), S.study_of_trial(k) == sk, is_some(T(), Dt[k])),
+                                                       Name.t2(k) <= m0 + c2 + i))))
+    inv.append(('max_witness', z3.Or(m0 + c2 + i == 0, is_some(T(), Dt[Name.trial(Name.o1(sk), Name.s1(sk), m0 + c2 + i)]))))
+    inv.append(('study_exists', z3.And(Name.is_study(sk), S.wf(sk), is_some(ST(), run.ghost['D.study'][sk]))))
     return inv
 
 
@@ -283,6 +334,73 @@ def response_list(p):
 def no_orphan(D):
     k = z3.Const('k!no', Name)
     return z3.ForAll([k], z3.Implies(is_some(OP(), D['D.sop'][k]), acc(OP(), 'done')(val(OP(), D['D.sop'][k]))))
+
+
+def phases(p):
+    """trial-map snapshots D0 -> after pool loop -> after metadata merge -> after creation loop -> final."""
+    run = p.run
+    sg = getattr(run, 'sg', {})
+    D0t, D1t = run.D0['D.trial'], run.ghost['D.trial']
+    md = getattr(run, 'md_update', None)
+    ph = {'D0': D0t, 'D1': D1t}
+    if 'Dpool0' in sg:
+        ph['pool_end'] = md[2] if md is not None else D1t
+    if md is not None:
+        ph['md_end'] = md[3]
+    if 'Dcreate0' in sg:
+        ph['create_end'] = sg['Dsur0']['D.trial'] if 'Dsur0' in sg else D1t
+    return ph
+
+
+def key_lemmas(p, j, tag):
+    """What happened to an arbitrary key j in each phase (each lemma is proved from the loop invariants at the loop
+    exits, then used to derive the postconditions: cut rule)."""
+    run = p.run
+    sg = getattr(run, 'sg', {})
+    req = run.req
+    client, count, sk = request_terms(req)
+    t = T()
+    ph = phases(p)
+    lem = []
+    st = lambda o: acc(t, 'state')(val(t, o))
+    if 'pool_end' in ph:
+        a, b = ph['D0'][j], ph['pool_end'][j]
+        lem.append(('lemma.%s.pool' % tag, z3.Or(b == a, z3.And(
+            is_some(t, a), st(a) == REQUESTED, Name.is_trial(j), S.study_of_trial(j) == sk,
+            b == some(t, upd_assigned(val(t, a), client, sg['start'])))), 'lemma'))
+    if 'md_end' in ph:
+        a, b = ph['pool_end'][j], ph['md_end'][j]
+        lem.append(('lemma.%s.metadata' % tag, z3.And(is_some(t, b) == is_some(t, a),
+                                                       z3.Implies(is_some(t, a), S.same_except_metadata_trial(val(t, b), val(t, a)))), 'lemma'))
+    if 'create_end' in ph:
+        a, b = ph['md_end'][j], ph['create_end'][j]
+        NT, m0 = sg['NT'], sg['m0']
+        jj = NT.n - (Name.t2(j) - m0)
+        new_n = (sg['R'].n if 'R' in sg else None)
+        c2 = NT.n - new_n if new_n is not None else None
+        if c2 is not None:
+            lem.append(('lemma.%s.create.instance' % tag, z3.Implies(
+                z3.And(Name.is_trial(j), S.study_of_trial(j) == sk, Name.t2(j) > m0, Name.t2(j) <= m0 + c2),
+                z3.And(_created(run, client, sk, jj)[0] == j, ph['create_end'][j] == some(t, _created(run, client, sk, jj)[1]), _name_facts(j))), 'lemma'))
+        lem.append(('lemma.%s.create' % tag, z3.Or(b == a, z3.And(
+            z3.Not(is_some(t, a)), is_some(t, b), Name.is_trial(j), S.study_of_trial(j) == sk, Name.t2(j) > m0,
+            st(b) == ACTIVE, acc(t, 'client_id')(val(t, b)) == client,
+            acc(t, 'name')(val(t, b)) == mkname(j), acc(t, 'id')(val(t, b)) == M.int2str(Name.t2(j)), _name_facts(j))), 'lemma'))
+        if 'Dsur0' in sg:
+            a, b = ph['create_end'][j], ph['D1'][j]
+            new = sg['R']
+            ji = Name.t2(j) - (m0 + c2 + 1)
+            lem.append(('lemma.%s.surplus.instance' % tag, z3.Implies(
+                z3.And(Name.is_trial(j), S.study_of_trial(j) == sk, Name.t2(j) > m0 + c2, Name.t2(j) <= m0 + c2 + new.n),
+                z3.And(_queued(run, sk, new, ji)[0] == j, ph['D1'][j] == some(t, _queued(run, sk, new, ji)[1]), _name_facts(j))), 'lemma'))
+            lem.append(('lemma.%s.surplus' % tag, z3.Or(b == a, z3.And(
+                z3.Not(is_some(t, a)), is_some(t, b), Name.is_trial(j), S.study_of_trial(j) == sk, Name.t2(j) > m0,
+                st(b) == REQUESTED,
+                acc(t, 'name')(val(t, b)) == mkname(j), acc(t, 'id')(val(t, b)) == M.int2str(Name.t2(j)), _name_facts(j))), 'lemma'))
+        # ids handed out are above every id stored before
+        lem.append(('lemma.%s.max_id' % tag, z3.Implies(z3.And(Name.is_trial(j), S.study_of_trial(j) == sk, is_some(t, ph['md_end'][j])),
+                                                        Name.t2(j) <= m0), 'lemma'))
+    return lem
 
 
 def lifecycle_suggest(D0, D1, j, client):
@@ -321,6 +439,15 @@ def post(p):
     present = z3.And(Name.is_study(sk), is_some(ST(), study_o))
     sst = acc(ST(), 'state')(val(ST(), study_o))
     mutable = z3.Or(sst == 0, sst == 1)
+    sg = getattr(run, 'sg', {})
+
+    # ---- an exception escaping after the operation record exists must be impossible (sequentially)
+    if kind == 'raise' and created_op:
+        obs.append(('C06.SuggestTrials.no_exception_after_operation_created', z3.BoolVal(False)))
+        return obs
+
+    # ---- lemmas about an arbitrary key
+    obs += key_lemmas(p, j, 'any')
 
     # ---- C01: lifecycle relations, frame, invariant, error behaviour
     for nm, f in lifecycle_suggest(D0, D1, j, client).items():
@@ -329,9 +456,10 @@ def post(p):
     obs.append(('C01.SuggestTrials.inv_preserved', c01.inv_preserved(p, j)))
     obs.append(('C01.SuggestTrials.frame', z3.And(D1['D.eop'] == D0['D.eop'],
                 z3.ForAll([j], z3.Implies(j != sk, D1['D.study'][j] == D0['D.study'][j])),
-                z3.ForAll([j], z3.Implies(z3.Not(z3.And(Name.is_trial(j), S.study_of_trial(j) == sk)), D1['D.trial'][j] == D0['D.trial'][j])),
                 z3.ForAll([j], z3.Implies(z3.Not(z3.And(Name.is_sop(j), Name.study(Name.o3(j), Name.s3(j)) == sk, Name.c3(j) == client)),
                                           D1['D.sop'][j] == D0['D.sop'][j])))))
+    obs.append(('C01.SuggestTrials.frame_trials', z3.Implies(z3.Not(z3.And(Name.is_trial(j), S.study_of_trial(j) == sk)),
+                                                           D1['D.trial'][j] == D0['D.trial'][j])))
     if kind == 'raise' and not created_op:
         obs.append(('C01.SuggestTrials.error_leaves_data_unchanged', c01.unchanged(D0, D1)))
         if cls == 'NotFoundError':
@@ -348,7 +476,9 @@ def post(p):
 
     # ---- C06: no operation left not-done on any exit (inductive: NoOrphan(D0) => NoOrphan(D1))
     hyp = no_orphan(D0)
-    obs.append(('C06.SuggestTrials.no_orphan_op', z3.Implies(hyp, no_orphan(D1))))
+    kk = z3.Const('k!orph', Name)
+    orphan_at = lambda D, k_: z3.And(is_some(OP(), D['D.sop'][k_]), z3.Not(acc(OP(), 'done')(val(OP(), D['D.sop'][k_]))))
+    obs.append(('C06.SuggestTrials.no_orphan_op', z3.Implies(orphan_at(D1, kk), orphan_at(D0, kk))))
     if kind == 'return':
         op = p.value.pack()
         done = acc(OP(), 'done')(op)
@@ -359,70 +489,154 @@ def post(p):
         if created_op:
             opkey = created_op[0][4]
             obs.append(('C06.SuggestTrials.returned_op_is_stored', D1['D.sop'][opkey] == some(OP(), op)))
-    if kind == 'raise' and created_op:
-        # an exception escaping after the operation record was created: allowed only as an error status
-        # that does not leave the record unfinished (checked by no_orphan_op above)
-        obs.append(('C06.SuggestTrials.reported', z3.BoolVal(True)))
 
     # ---- C02
     filters = getattr(run, 'filters', [])
-    L = None
-    for e in evs:
-        pass
     if kind == 'return' and created_op:
         opkey = created_op[0][4]
         op = p.value.pack()
         has_err = acc(OP(), 'case__result')(op) == OP().fields['error'].number
-        # op number = max + 1
         num = z3.Int('num!p')
-        obs.append(('C02.SuggestTrials.op_number', z3.And(
+        inv_sops = z3.ForAll([num], S.inv_sop_at(D0, S.sop_of(sk, client, num)))
+        obs.append(('C02.SuggestTrials.op_number', z3.Implies(inv_sops, z3.And(
             Name.is_sop(opkey), Name.c3(opkey) == client, Name.study(Name.o3(opkey), Name.s3(opkey)) == sk,
             z3.Not(is_some(OP(), D0['D.sop'][opkey])),
             z3.ForAll([num], z3.Implies(is_some(OP(), D0['D.sop'][S.sop_of(sk, client, num)]), num < Name.n3(opkey))),
-            z3.Or(Name.n3(opkey) == 1, is_some(OP(), D0['D.sop'][S.sop_of(sk, client, Name.n3(opkey) - 1)])))))
-        if len(filters) >= 1 and not E.z3.is_true(z3.simplify(has_err)) and not getattr(run, 'pythia_raised', False) and not _md_failed(run, evs):
+            z3.Or(Name.n3(opkey) == 1, is_some(OP(), D0['D.sop'][S.sop_of(sk, client, Name.n3(opkey) - 1)]))))))
+        errorless = not getattr(run, 'pythia_raised', False) and not _md_failed(run, evs)
+        if len(filters) >= 1 and errorless:
             A = filters[0]
             Rn, Ra = response_list(p)
-            own = lambda k: z3.And(Name.is_trial(k), S.study_of_trial(k) == sk, is_some(t, D0['D.trial'][k]),
-                                   acc(t, 'state')(val(t, D0['D.trial'][k])) == ACTIVE,
-                                   acc(t, 'client_id')(val(t, D0['D.trial'][k])) == client)
+            D0t, D1t = D0['D.trial'], D1['D.trial']
+            own = lambda k: z3.And(Name.is_trial(k), S.study_of_trial(k) == sk, is_some(t, D0t[k]),
+                                   acc(t, 'state')(val(t, D0t[k])) == ACTIVE, acc(t, 'client_id')(val(t, D0t[k])) == client)
             k = z3.Const('k!p', Name)
             i2 = z3.Int('i2!p')
+            obs.append(('C02.SuggestTrials.no_error', z3.Not(has_err)))
             # the code's "own" list is the specification's: exactly the ACTIVE trials of this client, creation order
             obs.append(('C02.SuggestTrials.own_list_spec', z3.And(
-                z3.ForAll([i], z3.Implies(z3.And(i >= 0, i < A.n), z3.And(own(tkey(A.arr[i])), D0['D.trial'][tkey(A.arr[i])] == some(t, A.arr[i])))),
+                z3.ForAll([i], z3.Implies(z3.And(i >= 0, i < A.n), z3.And(own(tkey(A.arr[i])), D0t[tkey(A.arr[i])] == some(t, A.arr[i])))),
                 z3.ForAll([k], z3.Implies(own(k), z3.Exists([i], z3.And(i >= 0, i < A.n, tkey(A.arr[i]) == k)))),
                 z3.ForAll([i, i2], z3.Implies(z3.And(i >= 0, i < i2, i2 < A.n), D0['D.seq'][tkey(A.arr[i])] < D0['D.seq'][tkey(A.arr[i2])])))))
-            obs.append(('C02.SuggestTrials.count', z3.Implies(z3.Not(has_err), z3.And(Rn <= count, z3.Or(Rn == count, z3.BoolVal(pythia_called))))))
-            obs.append(('C02.SuggestTrials.mine', z3.Implies(z3.Not(has_err), z3.ForAll([i], z3.Implies(z3.And(i >= 0, i < Rn), z3.And(
-                acc(t, 'state')(Ra[i]) == ACTIVE, acc(t, 'client_id')(Ra[i]) == client,
-                is_some(t, D1['D.trial'][tkey(Ra[i])]), S.same_except_metadata_trial(val(t, D1['D.trial'][tkey(Ra[i])]), Ra[i])))))))
-            obs.append(('C02.SuggestTrials.sticky', z3.Implies(z3.And(z3.Not(has_err), A.n >= count), z3.And(
-                D1['D.trial'] == D0['D.trial'], Rn == count, z3.ForAll([i], z3.Implies(z3.And(i >= 0, i < count), Ra[i] == A.arr[i]))))))
-            obs.append(('C02.SuggestTrials.own_first', z3.Implies(z3.And(z3.Not(has_err), A.n < count), z3.And(
+            if pythia_called and 'NT' in sg:
+                P, NT = sg['P'], sg['NT']
+                obs.append(('C02.SuggestTrials.count', z3.And(Rn <= count, z3.Or(Rn == count, Rn == A.n + P.n + NT.n))))
+            else:
+                obs.append(('C02.SuggestTrials.count', Rn == count))
+            obs.append(('C02.SuggestTrials.sticky', z3.Implies(A.n >= count, z3.And(
+                D1t == D0t, Rn == count, z3.ForAll([i], z3.Implies(z3.And(i >= 0, i < count), Ra[i] == A.arr[i]))))))
+            obs.append(('C02.SuggestTrials.own_first', z3.Implies(A.n < count, z3.And(
                 Rn >= A.n, z3.ForAll([i], z3.Implies(z3.And(i >= 0, i < A.n), Ra[i] == A.arr[i]))))))
-            obs.append(('C02.SuggestTrials.no_double_assign', z3.Implies(z3.Not(has_err), z3.ForAll([k], z3.Implies(
-                z3.And(is_some(t, D0['D.trial'][k]), acc(t, 'state')(val(t, D0['D.trial'][k])) == ACTIVE,
-                       acc(t, 'client_id')(val(t, D0['D.trial'][k])) != client),
-                z3.And(is_some(t, D1['D.trial'][k]), S.same_except_metadata_trial(val(t, D1['D.trial'][k]), val(t, D0['D.trial'][k])),
-                       z3.ForAll([i], z3.Implies(z3.And(i >= 0, i < Rn), tkey(Ra[i]) != k))))))))
+            # pointwise: an arbitrary position i0 of the response
+            i0 = z3.Int('i0!p')
+            rk = tkey(Ra[i0])
+            in_range = z3.And(i0 >= 0, i0 < Rn)
+            if 'P' in sg:
+                # classify R[i0]: own / pool / created  (from the loop invariants)
+                A_, P_ = sg['A'], sg['P']
+                start = sg['start']
+                cases = [z3.And(i0 < A_.n, Ra[i0] == A_.arr[i0]),
+                         z3.And(i0 >= A_.n, i0 < A_.n + P_.n, Ra[i0] == upd_assigned(P_.arr[P_.n - 1 - (i0 - A_.n)], client, start))]
+                if 'NT' in sg:
+                    NT = sg['NT']
+                    out2 = sg['out2']
+                    cases.append(z3.And(i0 >= out2.n, Ra[i0] == _created(run, client, sk, NT.n - 1 - (i0 - out2.n))[1],
+                                        NT.n - 1 - (i0 - out2.n) >= 0, NT.n - 1 - (i0 - out2.n) < NT.n,
+                                        is_some(t, D1t[_created(run, client, sk, NT.n - 1 - (i0 - out2.n))[0]]),
+                                        val(t, D1t[_created(run, client, sk, NT.n - 1 - (i0 - out2.n))[0]]) == Ra[i0],
+                                        _name_facts(_created(run, client, sk, NT.n - 1 - (i0 - out2.n))[0])))
+                obs.append(('lemma.response.classify', z3.Implies(in_range, z3.Or(*cases)), 'lemma'))
+            obs += key_lemmas(p, rk, 'resp')
+            obs.append(('C02.SuggestTrials.mine', z3.Implies(in_range, z3.And(
+                acc(t, 'state')(Ra[i0]) == ACTIVE, acc(t, 'client_id')(Ra[i0]) == client,
+                is_some(t, D1t[rk]), S.same_except_metadata_trial(val(t, D1t[rk]), Ra[i0])))))
+            other_active = z3.And(is_some(t, D0t[j]), acc(t, 'state')(val(t, D0t[j])) == ACTIVE, acc(t, 'client_id')(val(t, D0t[j])) != client)
+            obs.append(('C02.SuggestTrials.no_double_assign.stored', z3.Implies(other_active, z3.And(
+                is_some(t, D1t[j]), S.same_except_metadata_trial(val(t, D1t[j]), val(t, D0t[j]))))))
+            obs.append(('C02.SuggestTrials.no_double_assign.response', z3.Implies(z3.And(in_range, rk == j), z3.Not(other_active))))
             k2 = z3.Const('k2!p', Name)
-            obs.append(('C02.SuggestTrials.fresh_ids', z3.ForAll([k, k2], z3.Implies(
-                z3.And(is_some(t, D1['D.trial'][k]), z3.Not(is_some(t, D0['D.trial'][k])),
-                       Name.is_trial(k2), S.study_of_trial(k2) == sk, is_some(t, D0['D.trial'][k2])),
-                z3.And(Name.is_trial(k), S.study_of_trial(k) == sk, Name.t2(k) > Name.t2(k2))))))
-            if pythia_called and 'NT' in getattr(run, 'sg', {}):
-                NT = run.sg['NT']
-                obs.append(('C02.SuggestTrials.surplus_queued', z3.Implies(z3.Not(has_err), z3.ForAll([i], z3.Implies(
-                    z3.And(i >= 0, i < NT.n), z3.Exists([k], z3.And(
-                        z3.Not(is_some(t, D0['D.trial'][k])), is_some(t, D1['D.trial'][k]),
-                        acc(t, 'parameters__arr')(val(t, D1['D.trial'][k])) == acc(t, 'parameters__arr')(NT.arr[i]),
-                        acc(t, 'parameters__len')(val(t, D1['D.trial'][k])) == acc(t, 'parameters__len')(NT.arr[i]),
-                        z3.Or(z3.And(acc(t, 'state')(val(t, D1['D.trial'][k])) == ACTIVE, acc(t, 'client_id')(val(t, D1['D.trial'][k])) == client),
-                              acc(t, 'state')(val(t, D1['D.trial'][k])) == REQUESTED))))))))
+            obs.append(('C02.SuggestTrials.fresh_ids', z3.And(
+                z3.Implies(z3.And(is_some(t, D1t[j]), z3.Not(is_some(t, D0t[j]))),
+                           z3.And(Name.is_trial(j), S.study_of_trial(j) == sk, Name.t2(j) >= 1)),
+                z3.Implies(z3.And(is_some(t, D1t[j]), z3.Not(is_some(t, D0t[j])),
+                                  Name.is_trial(k2), S.study_of_trial(k2) == sk, is_some(t, D0t[k2])),
+                           Name.t2(j) > Name.t2(k2)))))
+            if pythia_called and 'NT' in sg:
+                NT = sg['NT']
+                i1 = z3.Int('i1!p')
+                obs.append(('C02.SuggestTrials.surplus_queued', z3.Implies(z3.And(i1 >= 0, i1 < NT.n), z3.Exists([k], z3.And(
+                    z3.Not(is_some(t, D0t[k])), is_some(t, D1t[k]),
+                    acc(t, 'parameters__arr')(val(t, D1t[k])) == acc(t, 'parameters__arr')(NT.arr[i1]),
+                    acc(t, 'parameters__len')(val(t, D1t[k])) == acc(t, 'parameters__len')(NT.arr[i1]),
+                    z3.Or(z3.And(acc(t, 'state')(val(t, D1t[k])) == ACTIVE, acc(t, 'client_id')(val(t, D1t[k])) == client),
+                          acc(t, 'state')(val(t, D1t[k])) == REQUESTED))))))
     return obs
 
 
 def _md_failed(run, evs):
     names = [e[1] for e in evs]
     return 'update_metadata' in names and not hasattr(run, 'md_update')
+
+
+ALL_TOP = ['C01.SuggestTrials.legal_transition', 'C01.SuggestTrials.parameters_unchanged', 'C01.SuggestTrials.completed_immutable',
+           'C01.SuggestTrials.no_trial_disappears', 'C01.SuggestTrials.frame', 'C01.SuggestTrials.frame_trials',
+           'C01.SuggestTrials.error_leaves_data_unchanged',
+           'C02.SuggestTrials.count', 'C02.SuggestTrials.mine', 'C02.SuggestTrials.sticky', 'C02.SuggestTrials.own_first',
+           'C02.SuggestTrials.no_double_assign.stored', 'C02.SuggestTrials.no_double_assign.response', 'C02.SuggestTrials.fresh_ids',
+           'C02.SuggestTrials.surplus_queued', 'C02.SuggestTrials.op_number', 'C02.SuggestTrials.no_error',
+           'C06.SuggestTrials.no_orphan_op', 'C06.SuggestTrials.returns_finished_operation', 'C06.SuggestTrials.reported',
+           'C06.SuggestTrials.returned_op_is_stored', 'C06.SuggestTrials.no_exception_after_operation_created']
+
+
+# ------------------------------------------------------------------------------------------ driver
+def witness_terms(p):
+    run = p.run
+    req = run.req
+    client, count, sk = request_terms(req)
+    out = [('request', req.pack()), ('study key', sk), ('D0.study[study]', run.D0['D.study'][sk])]
+    sg = getattr(run, 'sg', {})
+    for nm in ('A', 'P', 'NT'):
+        if nm in sg:
+            out.append(('len(%s)' % nm, sg[nm].n))
+    if 'm0' in sg:
+        out.append(('max trial id before creation', sg['m0']))
+    return out
+
+
+def run(chk, pid, tier, known=None):
+    """Verify the real SuggestTrials; record the obligations of property `pid` (C01/C02/C06) plus the loop-invariant,
+    lemma and callee-precondition obligations they rest on (prefixed with the property id)."""
+    from pyvc import verify
+    chk.function(SVC, 'VizierServicer.SuggestTrials')
+    chk.function(SVC, 'VizierServicer._select_pythia_service', role='inlined real code')
+    chk.function(SVC, '_get_current_time', role='inlined real code')
+    for a in ('Pythia (policy / remote stub) returns any SuggestDecision or raises any Exception, and does not write to the datastore',
+              'suggestion_count >= 1', 'TrialConverter.to_protos / make_key_value_list / trial_metadata_to_update_list are total functions of their argument (C09)'):
+        chk.assume(a)
+    support = ('VizierServicer.SuggestTrials.loop', 'lemma.', 'datastore.')
+
+    def only(n):
+        return n.startswith(pid + '.') or n.startswith(support) or (pid == 'C06' and n.startswith('C06.'))
+
+    def rename(n):
+        return n if n.startswith(pid + '.') else '%s.SuggestTrials.support.%s' % (pid, n.replace('VizierServicer.SuggestTrials.', ''))
+
+    def refute(names):
+        from contracts import suggest_bounded
+        top = [n for n in names if n.startswith(('C01.', 'C02.', 'C06.'))]
+        # a failing loop invariant / lemma is searched through the top-level clauses it supports
+        want = top if top and all(n in top for n in names) else [n for n in ALL_TOP if n.startswith(pid + '.') or pid == 'C02']
+        found = suggest_bounded.model_search(sorted(set(want) | set(top)), tier)
+        out = {n: v for n, v in found.items() if n in names}
+        # a failing loop invariant / lemma / clause without its own counter-model is attributed to a reproduced
+        # counterexample of the contract found on the same tree (the replay file says which clause broke natively)
+        rep = [v for n, v in sorted(found.items()) if v[2]]
+        for n in names:
+            if n not in out and rep:
+                out[n] = rep[0]
+        return out
+
+    fr = verify.verify_function(chk, 'VizierServicer.SuggestTrials', entry, post, witness_terms=witness_terms, known=known,
+                                timeout_ms=8000 if tier == 'quick' else 60000, expect_paths=10, workers=12, only=only, rename=rename,
+                                refute=refute)
+    return fr.inlined
